@@ -657,9 +657,10 @@ theorem flush_seg (d : Disk) (v : Vol) (junk : List WalFile) (ro rc : List Mutat
           exact ⟨hx ▸ hgoodPart, ⟨.part false, Or.inl rfl, by subst hx; rfl⟩⟩
         · intro x hx
           exact ⟨hgoodT x hx, hx⟩
-      have sJ : Seg (Good3 d) PJ (junkEvs (v.s.gen + 1) v.s.r junks) PJ := by
+      have sJ : ∀ js : List Layer, Seg (Good3 d) PJ (junkEvs (v.s.gen + 1) v.s.r js) PJ := by
+        intro js
         unfold junkEvs
-        induction junks with
+        induction js with
         | nil =>
           apply Seg.nil
           intro x hx
@@ -685,7 +686,7 @@ theorem flush_seg (d : Disk) (v : Vol) (junk : List WalFile) (ro rc : List Mutat
           rw [hupd]
         · intro x hx
           exact ⟨hx ▸ hgoodComplete, hx⟩
-      refine Seg.append (Seg.append (Seg.append s12 sJ) sC) ?_
+      refine Seg.append (Seg.append (Seg.append s12 (sJ junks)) sC) ?_
       refine (Seg.cons (Q := fun x => x = { d with tables := encT v.s.tables ++ [(v.s.gen + 1, .complete v.s.r)], wal := junk ++ [{ num := v.walCur, recs := rc, torn := tn }] }) ?_ (Seg.nil ?_))
       · intro x hx
         refine ⟨hx ▸ hgoodComplete, ?_⟩
